@@ -45,7 +45,7 @@ PROPS = {
     "C19": {"targets": [CLOUDM + "BaseCloud.get_token", CLOUDM + "BaseCloud._post_request", CLOUDM + "NetHomePlusCloud._parse_response",
                         "msmart.lan.Security.udpid", DISCM + "Discover._authenticate_device"],
             "level": "proof"},
-    "C17": {"targets": [DISCM + "_DiscoverProtocol.__init__", DISCM + "Discover._get_device_version", DISCM + "Discover._get_device_info#wellformed", DISCM + "Discover._get_device_class",
+    "C17": {"targets": [DISCM + "Discover.discover_single", DISCM + "_DiscoverProtocol.__init__", DISCM + "Discover._get_device_version", DISCM + "Discover._get_device_info#wellformed", DISCM + "Discover._get_device_class",
                         DISCM + "Discover._get_device", DISCM + "Discover._get_device#wellformed", DISCM + "_DiscoverProtocol._send_discovery", "C17.discovery_probe_is_pinned"],
             "level": "proof"},
     "C18": {"targets": [DISCM + "_DiscoverProtocol.__init__", DISCM + "_DiscoverProtocol.datagram_received", DISCM + "Discover._get_device", DISCM + "Discover._get_device_info",
